@@ -314,6 +314,11 @@ func Run(c *common.Ctx) error {
 			return err
 		}
 	}
+	for i := 0; i < 2; i++ {
+		if err := walAfterDemotion(c, cfH, c.Rng.Fork(), i); err != nil {
+			return err
+		}
+	}
 	if err := haltGrantNotReached(c, c.Rng.Fork()); err != nil {
 		return err
 	}
@@ -1064,5 +1069,59 @@ func haltGrantNotReached(c *common.Ctx, r *common.Rand) error {
 	if id := p.Store.DB("db").VerifHaltLockID(); id != 0 {
 		c.Violate(key+":primary-halted", fmt.Sprintf("the request failed on the replica and the primary still holds halt lock %d", id), rep)
 	}
+	return nil
+}
+
+// walAfterDemotion: a WAL-mode primary has committed transactions that live in the log only; it is demoted. Until the
+// role-change recovery runs (after the demotion delay) the log is part of the database. An application that removes or
+// truncates the log through the mount is refused with the read-only error and the image stays what it was.
+func walAfterDemotion(c *common.Ctx, cfH *common.CaseFile, r *common.Rand, idx int) error {
+	dir, err := os.MkdirTemp(c.OutDir, "c07w-")
+	if err != nil {
+		return err
+	}
+	defer os.RemoveAll(dir)
+	clu := cluster.New(dir, 2*time.Second)
+	defer clu.Close()
+	clu.Opts = func(name string, s *litefs.Store) { s.DemoteDelay = 3 * time.Second }
+	p, err := clu.Start("p", true)
+	if err != nil {
+		return err
+	}
+	if clu.WaitPrimary(5*time.Second) == nil {
+		return fmt.Errorf("no primary")
+	}
+	h := hist.NewOn(c, r.Fork(), hist.Config{PageSize: 512, AllowWAL: true, ForceWAL: true}, p.Store, p.Exits, "db", nil, 0, false)
+	if err := commitN(h, 3, true); err != nil {
+		return err
+	}
+	if fi, err := os.Stat(p.Store.DB("db").WALPath()); err != nil || fi.Size() <= 32 {
+		return fmt.Errorf("setup: no frames in the log")
+	}
+	p.Store.Demote()
+	deadline := time.Now().Add(2 * time.Second)
+	for p.Store.IsPrimary() && time.Now().Before(deadline) {
+		time.Sleep(time.Millisecond)
+	}
+	if p.Store.IsPrimary() || p.Store.DB("db").Writeable() {
+		c.Count("wal_after_demotion_not_effective", 1)
+		return nil
+	}
+	m := newMount(filepath.Join(dir, "mnt-p"), p.Store)
+	handler := []string{"HRemoveWAL", "HTruncateWAL"}[idx%2]
+	before := snapshot(p, "db")
+	errno, _ := m.exec(handlerOp{Handler: handler, DB: "db", Locks: "none"}, 901, 512, nil)
+	after := snapshot(p, "db")
+	c.Evaluations++
+	c.Distinct("wal-after-demotion:" + handler)
+	rep := map[string]any{"kind": "readonly-wal-after-demotion", "handler": handler, "errno": errno}
+	if before != after {
+		c.Violate("C07:wal-after-demotion:"+handler+":changed", fmt.Sprintf("%s on a demoted primary (no write authority, log not yet recovered) answered errno %d and changed the database: %+v -> %+v", handler, errno, before, after), rep)
+		return nil
+	}
+	if errno != int(syscall.EACCES) {
+		c.Violate("C07:wal-after-demotion:"+handler+":errno", fmt.Sprintf("%s on a demoted primary answered errno %d, want the read-only permission error EACCES (13)", handler, errno), rep)
+	}
+	cfH.Add(fmt.Sprintf("(%s, false, false, false, true, %d)", handler, acode(errno)), rep)
 	return nil
 }
